@@ -345,7 +345,7 @@ def ensure_facts(repo="/repo"):
         run_driver(repo, out_dir)
         load_jsonl(out_dir, dbpath, {"hash": h, "repo": repo, "files": nfiles, "time": time.time()})
         shutil.rmtree(out_dir, ignore_errors=True)
-        prune_cache(keep=10)
+        prune_cache(keep=24)
         return dbpath
     finally:
         fcntl.flock(lock, fcntl.LOCK_UN)
